@@ -17,9 +17,9 @@ NAN = float("nan")
 MISS = object()  # placeholder for "missing" in generated label vectors
 
 NUM_ALPHAS = [[1, 2, 5], [0.5, -2.0, 3.0], [0, -0.0 + 7, 10]]
-STR_ALPHAS = [["a", "b", "zz"], ["x", "B", "10"]]
+STR_ALPHAS = [["a", "b", "zz"], ["n", "no", "yes"], ["x", "B", "10"]]   # "n"/"no" are prefixes of the sentinel "none"
 NUM_SENT = [NAN, -1, 99, None]
-STR_SENT = ["nan", "", "missing", None]
+STR_SENT = ["nan", "", "none", None]
 
 
 def _lab():
@@ -113,7 +113,7 @@ def gen_vectors(ctx):
     rng = ctx.rng("vec")
     for _ in range(150 if ctx.is_quick else 3000):
         strs = rng.random() < 0.4
-        alpha = (STR_ALPHAS if strs else NUM_ALPHAS)[int(rng.integers(2))]
+        alpha = (STR_ALPHAS if strs else NUM_ALPHAS)[int(rng.integers(3 if strs else 2))]
         s = (STR_SENT if strs else NUM_SENT)[int(rng.integers(4))]
         n = int(rng.integers(1, 40))
         pm = rng.choice([0.0, 0.3, 1.0])
@@ -213,6 +213,10 @@ def run(ctx):
                         continue
                 if classes is not None and not classes:
                     continue
+                if classes_mode == "subset" and any(isinstance(v, str) and any(isinstance(c, str) and v != c and v.startswith(c) for c in classes)
+                                                    for v in labs if v not in classes):
+                    continue   # sklearn's LabelEncoder casts y to the (narrower) dtype of classes_: an unseen label that has a class as
+                               # prefix is silently truncated onto that class (third-party behaviour, outside the round-trip hypothesis)
                 if len(emeta) % 3 != 0 and tag == "exh" and classes_mode != "none":
                     pass
                 try:
